@@ -619,4 +619,16 @@ def hrun (H : HashFns) : HWorld → List HOp → HWorld
     | .ok (hw', _) => hrun H hw' ops
     | .error _ => hrun H hw ops
 
+/-- Loading a pickle in *another interpreter*: the heap (the unpickled objects) is what it is, but the
+hash function is the loading process's own (`PYTHONHASHSEED`), and `__reduce__` = `FrozenDict(unfreeze())`
+rebuilds through the constructor, which sets `_hash = None`: nothing of the old cache travels. -/
+def HWorld.loadedElsewhere (hw : HWorld) : HWorld := ⟨hw.w, []⟩
+
+/-- the behaviour this model does **not** have (kept for the counter-example): a `__reduce__` that
+carries `_hash` along gives the rebuilt object `dst` the cache entry of `src`, which then also travels -/
+def HWorld.carryCacheOrig (hw : HWorld) (src dst : Addr) : HWorld :=
+  match cacheGet hw.cache src with
+  | some c => ⟨hw.w, (dst, c) :: hw.cache⟩
+  | none => hw
+
 end Flax.Frozen
